@@ -4,6 +4,8 @@ for paths under a given root. A fault plan (k, variant, t) fires at the k-th mut
 
     variant 'die-before'   the process dies before the operation has any effect
     variant 'die-after'    the operation completes (mkdir / open creates an empty file / the whole write lands), then the process dies
+                           (a 'write' is the moment buffered bytes reach the file system: flush or close - bytes written to a file
+                           object that is still open are lost when the process dies, as with real buffered files)
     variant 'die-partial'  (write only) the first t bytes land, then the process dies
     variant 'err-before'   the operation raises OSError(ENOSPC) and has no effect
     variant 'err-partial'  (write only) the first t bytes land, then OSError(ENOSPC) is raised (EFBIG when t is odd)
@@ -25,26 +27,39 @@ class ProcessDied(BaseException):
 
 
 class _FileProxy:
+    """A file opened for writing under the root. Like a real buffered file object, what is written stays in the process
+    (pending) until flush / close: that is when the bytes LAND, and that is the fault point. If the process dies first,
+    pending bytes of every open file are lost (the file exists, created by open, with whatever landed before)."""
+
     def __init__(self, fs, real, path):
         self._fs = fs
         self._real = real
         self._path = path
+        self._pending = []
 
     def write(self, data):
-        return self._fs._on_write(self, data)
+        if not self._fs.dead:
+            self._pending.append(data)
+        return len(data)
+
+    def flush(self):
+        self._fs._land(self)
 
     def __enter__(self):
         return self
 
     def __exit__(self, *a):
-        try:
-            self._real.close()
-        except Exception:  # noqa
-            pass
+        self.close()
         return False
 
     def close(self):
-        self._real.close()
+        try:
+            self._fs._land(self)
+        finally:
+            try:
+                self._real.close()
+            except Exception:  # noqa
+                pass
 
     def __getattr__(self, k):
         return getattr(self._real, k)
@@ -121,12 +136,16 @@ class FaultFS:
 
         return opener
 
-    def _on_write(self, proxy, data):
+    def _land(self, proxy):
+        """flush / close of a file with pending bytes: the mutating operation 'write' (the bytes reach the file system)"""
+        if not proxy._pending:
+            return
+        chunks, proxy._pending = proxy._pending, []
         if self.dead:
-            return len(data)
+            return
+        data = chunks[0][:0].join(chunks)
         v = self._next("write", proxy._path, len(data))
         if v == "die-before":
-            proxy._real.flush()
             self._die()
         if v == "err-before":
             raise OSError(errno.ENOSPC, "No space left on device (injected)")
@@ -137,11 +156,10 @@ class FaultFS:
             if v == "die-partial":
                 self._die()
             raise OSError(errno.EFBIG if t % 2 else errno.ENOSPC, "injected")
-        n = proxy._real.write(data)
+        proxy._real.write(data)
         proxy._real.flush()
         if v == "die-after":
             self._die()
-        return n
 
     def _wrap_simple(self, kind, real):
         def f(path, *a, **k):
